@@ -477,6 +477,7 @@ func (vc *VC) contractCall(fr *Frame, st *State, callee *ssa.Function, cc *FuncC
 	vc.havocModifies(cf, st, cc, pre)
 	vc.frameFr = nil
 	vc.frameHidePkg = ""
+	vc.havocCalleeEvents(st, cc)
 	nres := callee.Signature.Results().Len()
 	res := make([]string, nres)
 	for i := 0; i < nres; i++ {
@@ -1021,4 +1022,51 @@ func rewriteProv(p string, callee *ssa.Function, argVals []ssa.Value) string {
 		}
 	}
 	return star + p
+}
+
+// havocCalleeEvents: call events that the callee's postconditions talk about may have happened during
+// the call. Their ghost counters advance by an arbitrary amount (the postconditions then say by how
+// much), recorded arguments of earlier events are kept, running sums become arbitrary.
+func (vc *VC) havocCalleeEvents(st *State, cc *FuncContract) {
+	names := map[string]bool{}
+	for _, e := range cc.Ensures {
+		for _, m := range callsRe.FindAllStringSubmatch(e, -1) {
+			names[m[1]] = true
+		}
+		for _, m := range callsumRe.FindAllStringSubmatch(e, -1) {
+			names[m[1]] = true
+		}
+	}
+	if len(names) == 0 {
+		return
+	}
+	ns := make([]string, 0, len(names))
+	for n := range names {
+		ns = append(ns, n)
+	}
+	sort.Strings(ns)
+	for _, name := range ns {
+		sv := vc.eventCounter(name)
+		old := vc.get(st, sv)
+		nv := vc.fresh("Int", "havoc_calls")
+		vc.fact(st.pc, fmt.Sprintf("(>= %s %s)", nv, old))
+		st.vars[sv] = nv
+		prefA := "G_arg_" + sanitizeID(name) + "_"
+		prefS := "G_sum_" + sanitizeID(name) + "_"
+		keys := make([]string, 0)
+		for k := range vc.svSort {
+			if strings.HasPrefix(k, prefA) || strings.HasPrefix(k, prefS) {
+				keys = append(keys, k)
+			}
+		}
+		sort.Strings(keys)
+		for _, k := range keys {
+			oldA := vc.get(st, k)
+			na := vc.fresh(vc.svSort[k], "havoc_ev")
+			if strings.HasPrefix(k, prefA) {
+				vc.fact(st.pc, fmt.Sprintf("(forall ((k Int)) (! (=> (< k %s) (= (select %s k) (select %s k))) :pattern ((select %s k))))", old, na, oldA, na))
+			}
+			st.vars[k] = na
+		}
+	}
 }
